@@ -107,6 +107,16 @@ def withSuffix (p : PPath) (ext : Name) : Except Exc PPath :=
     let name' := if old = [] then p.name ++ ext else p.name.take (p.name.length - old.length) ++ ext
     .ok ⟨p.root, p.parts.dropLast ++ [name']⟩
 
+/-- `'/'.join(parts)` -/
+def joinSlash : Comps → List Ch
+  | [] => []
+  | [c] => c
+  | c :: d :: rest => c ++ SLASH :: joinSlash (d :: rest)
+
+/-- `str(path)` : root slashes + parts joined by `/`; the empty relative path prints as `.` -/
+def strOf (p : PPath) : List Ch :=
+  if p.root = 0 ∧ p.parts = [] then dot else List.replicate p.root SLASH ++ joinSlash p.parts
+
 /-- `base.joinpath(tp)` for an already parsed `tp`: an absolute right operand replaces the left one -/
 def join (base tp : PPath) : PPath :=
   if tp.root > 0 then tp else ⟨base.root, base.parts ++ tp.parts⟩
@@ -346,17 +356,102 @@ def fslGetSource (cfg : FSLConfig) (fs : FS) (name : List Ch) : Except Exc (PPat
     | .error e => .error e
     | .ok c => .ok (p, c)
 
+/-! ## `CachingFileSystemLoader` (`CachingLoaderMixin.load/_check_cache` over `FileSystemLoader`, `namespace_key = ""`) -/
+
+/-- a cached template: the key it was stored under, where it came from, its text, and the `st_mtime` `_read` saw -/
+structure CEntry where
+  key : List Ch
+  path : PPath
+  content : Nat
+  stamp : Nat
+
+structure CCfg where
+  fsl : FSLConfig
+  autoReload : Bool
+  capacity : Nat
+
+/-- `source_path.stat().st_mtime` (`mt` gives the mtime of the node at a canonical path) -/
+def pyMtime (fs : FS) (mt : Comps → Nat) (p : PPath) : Except Exc Nat :=
+  if hasBadChar p then .error .valueError
+  else if strBytes p ≥ PATH_MAX then .error .osError
+  else
+    match walk false fs.root fs.maxLinks (fs.start p) p.parts with
+    | .error _ => .error .osError
+    | .ok (_, q) =>
+      match nodeAt fs.root q with
+      | some _ => .ok (mt q)
+      | none => .error .osError
+
+/-- `FileSystemLoader._uptodate` : `try: return mtime == source_path.stat().st_mtime except OSError: return False` -/
+def uptodate (fs : FS) (mt : Comps → Nat) (e : CEntry) : Except Exc Bool :=
+  match pyMtime fs mt e.path with
+  | .ok m => .ok (m == e.stamp)
+  | .error .osError => .ok false
+  | .error x => .error x
+
+/-- `get_source` with the mtime `_read` records -/
+def fslLoad (cfg : FSLConfig) (fs : FS) (mt : Comps → Nat) (name : List Ch) : Except Exc CEntry :=
+  match fslGetSource cfg fs name with
+  | .error e => .error e
+  | .ok (p, c) =>
+    match pyMtime fs mt p with
+    | .ok m => .ok ⟨name, p, c, m⟩
+    | .error e => .error e
+
+def cacheFind (c : List CEntry) (k : List Ch) : Option CEntry := c.find? (fun e => e.key = k)
+
+/-- `LRUCache.__getitem__` moves the key to the most-recent end (list: least recently used first) -/
+def cacheTouch (c : List CEntry) (k : List Ch) : List CEntry :=
+  match cacheFind c k with
+  | some e => c.filter (fun x => x.key ≠ k) ++ [e]
+  | none => c
+
+/-- `LRUCache.__setitem__` -/
+def cacheSet (cap : Nat) (c : List CEntry) (e : CEntry) : List CEntry :=
+  match cacheFind c e.key with
+  | some _ => c.filter (fun x => x.key ≠ e.key) ++ [e]
+  | none => (if c.length ≥ cap then c.drop 1 else c) ++ [e]
+
+/-- one `load(env, name)` through the cache: returns the new cache and the answer -/
+def cachedLoad (L : CCfg) (fs : FS) (mt : Comps → Nat) (cache : List CEntry) (name : List Ch) :
+    List CEntry × Except Exc (PPath × Nat) :=
+  match cacheFind cache name with
+  | none =>
+    match fslLoad L.fsl fs mt name with
+    | .ok e => (cacheSet L.capacity cache e, .ok (e.path, e.content))
+    | .error x => (cache, .error x)
+  | some ent =>
+    let cache' := cacheTouch cache name
+    if L.autoReload then
+      match uptodate fs mt ent with
+      | .error x => (cache', .error x)
+      | .ok true => (cache', .ok (ent.path, ent.content))
+      | .ok false =>
+        match fslLoad L.fsl fs mt name with
+        | .ok e => (cacheSet L.capacity cache' e, .ok (e.path, e.content))
+        | .error x => (cache', .error x)
+    else (cache', .ok (ent.path, ent.content))
+
+/-- a history of requests, each against the file system as it is at that moment -/
+def cachedRun (L : CCfg) (cache : List CEntry) :
+    List (FS × (Comps → Nat) × List Ch) → List (Except Exc (PPath × Nat))
+  | [] => []
+  | (fs, mt, name) :: rest =>
+    let r := cachedLoad L fs mt cache name
+    r.2 :: cachedRun L r.1 rest
+
 /-! ## `PackageLoader` -/
 
 structure PkgConfig where
   paths : List PPath      -- `files(package).joinpath(package_path)` for each package path
   ext : Name
 
-/-- the `for path in self.paths` loop: `try: is_file() except OSError: continue` -/
+/-- the `for path in self.paths` loop: `source_path = path.joinpath(str(template_path))` — the target goes
+through its string form and is parsed again — then `try: is_file() except OSError: continue` -/
 def pkgSearch (fs : FS) (tp : PPath) : List PPath → Except Exc PPath
   | [] => .error .notFound
   | base :: more =>
-    let src := join base tp
+    let src := join base (parse (strOf tp))
     match pyIsFile fs src with
     | .error .osError => pkgSearch fs tp more
     | .error e => .error e
